@@ -191,3 +191,7 @@ class HistParametricModel(ParametricModelBaseMixin, HistContainer):
 
     def fill(self, entries):
         raise TypeError("Parametric model of histogram cannot be filled!")
+
+    def rebin(self, new_bin_edges):
+        super(HistParametricModel, self).rebin(new_bin_edges)
+        self._pm_calculation_stale = True  # the model has to be evaluated for the new bins
